@@ -2,6 +2,6 @@
 # usage: tools/try_mutant.sh <patch.diff> <Cxx> [check args...]   -- apply a seeded change to /repo, run the check, undo it
 P=$1; shift; C=$1; shift
 git -C /repo apply "$P" || { echo "patch does not apply"; exit 3; }
-cd /verif && ./check $C "$@" 2>&1 | grep -v "^Unwinding\|^Not unw" | grep -E "VIOLATION|FAILURE|INCONCLUSIVE|VACUOUS|BUILD_ERROR|tier=" | head -40
+cd /verif && VERIF_EVIDENCE_DIR=/verif/out/evidence_mutant ./check $C "$@" 2>&1 | grep -v "^Unwinding\|^Not unw" | grep -E "VIOLATION|FAILURE|INCONCLUSIVE|VACUOUS|BUILD_ERROR|tier=" | head -40
 git -C /repo checkout -- .
 git -C /repo status --short | head -3
